@@ -43,6 +43,11 @@ fn array_push_delta(res: &mut Vec<u8>, time: isize) {
     }
 }
 
+/// clamp a value to the 7-bit range of a MIDI data byte
+fn to_data_byte(v: isize) -> u8 {
+    if v < 0 { 0 } else if v > 127 { 127 } else { v as u8 }
+}
+
 fn generate_track(track: &Track) -> Vec<u8> {
     let mut res: Vec<u8> = vec![];
     let mut timepos = 0;
@@ -56,8 +61,8 @@ fn generate_track(track: &Track) -> Vec<u8> {
                 array_push_delta(&mut res, e.time - timepos);
                 timepos = e.time;
                 res.push(0x90 + e.channel as u8);
-                res.push(note_no as u8); // note_no
-                res.push(note_vel as u8); // velocity
+                res.push(to_data_byte(note_no)); // note_no
+                res.push(to_data_byte(note_vel)); // velocity
             },
             EventType::NoteOff => {
                 let note_no = e.v1;
@@ -66,21 +71,21 @@ fn generate_track(track: &Track) -> Vec<u8> {
                 array_push_delta(&mut res, e.time - timepos);
                 timepos = e.time;
                 res.push(0x80 + e.channel as u8);
-                res.push(note_no as u8);
-                res.push(note_vel as u8);
+                res.push(to_data_byte(note_no));
+                res.push(to_data_byte(note_vel));
             },
             EventType::Voice => {
                 array_push_delta(&mut res, e.time - timepos);
                 timepos = e.time;
                 res.push(0xC0 + e.channel as u8);
-                res.push(e.v1 as u8);
+                res.push(to_data_byte(e.v1));
             },
             EventType::ControllChange => {
                 array_push_delta(&mut res, e.time - timepos);
                 timepos = e.time;
                 res.push(0xB0 + e.channel as u8);
-                res.push(e.v1 as u8);
-                res.push(e.v2 as u8);
+                res.push(to_data_byte(e.v1));
+                res.push(to_data_byte(e.v2));
             },
             EventType::Meta => {
                 array_push_delta(&mut res, e.time - timepos);
